@@ -227,7 +227,7 @@ class Run:
             self.set_inconclusive("no oracle evaluation was performed")
         replay_paths = []
         for mech, v, _ in new:
-            d = os.path.join(os.environ.get("VERIF_REPLAY_DIR") or os.path.join(ROOT, "replays"), self.pid)
+            d = os.path.join(os.environ.get("VERIF_REPLAY_DIR") or os.path.join(ROOT, "replays" if REPO == "/repo" else ".scratch/replays"), self.pid)
             os.makedirs(d, exist_ok=True)
             h = hashlib.sha1(mech.encode()).hexdigest()[:16]
             path = os.path.join(d, h + ".json")
@@ -265,7 +265,7 @@ class Run:
         sys.exit(0)
 
     def _write_evidence(self, ev):
-        d = os.environ.get("VERIF_EVIDENCE_DIR") or os.path.join(ROOT, "evidence")
+        d = os.environ.get("VERIF_EVIDENCE_DIR") or os.path.join(ROOT, "evidence" if REPO == "/repo" else ".scratch/evidence")
         os.makedirs(d, exist_ok=True)
         path = os.path.join(d, f"{self.pid}.json")
         try:
